@@ -46,6 +46,9 @@ pub struct Sim {
     pub cs: [bool; 4],
     pub dc2: [bool; 2],
     pub big: bool,
+    /// buffered bus (see `Scenario::fifo`): writes wait here until `flush` / a read / the end of the call
+    pub fifo: bool,
+    pub pending: Vec<Vec<u8>>,
     pub hung: bool,
 }
 
@@ -67,6 +70,8 @@ impl Sim {
             cs: [true; 4],
             dc2: [false; 2],
             big: false,
+            fifo: false,
+            pending: vec![],
             hung: false,
         }
     }
@@ -124,6 +129,22 @@ impl Sim {
             }
             self.fault = Some(k - 1);
         }
+        if self.fifo {
+            self.pending.push(data.to_vec());
+            return Ok(());
+        }
+        self.deliver(data);
+        Ok(())
+    }
+    /// the queued writes of a buffered bus reach the chips now, with the pins as they are now
+    pub fn drain(&mut self) {
+        let q = std::mem::take(&mut self.pending);
+        for d in q {
+            self.deliver(&d);
+        }
+    }
+    fn deliver(&mut self, data: &[u8]) {
+        let tag = self.tag();
         let same = matches!(&self.group, Some(g) if g.tag == tag);
         if !same {
             self.flush_group();
@@ -140,7 +161,6 @@ impl Sim {
         if is_cmd && data.len() == 1 && self.raise.contains(&data[0]) {
             self.raise_busy();
         }
-        Ok(())
     }
     pub fn read_busy(&mut self) -> bool {
         self.polls += 1;
@@ -200,6 +220,7 @@ impl SErrorType for MockBus {
 impl SpiBus for MockBus {
     fn read(&mut self, words: &mut [u8]) -> Result<(), MockErr> {
         let mut s = self.0.borrow_mut();
+        s.drain();
         let tag = s.tag();
         s.event(&format!("I {} {}", tag, words.len()));
         for x in words.iter_mut() {
@@ -232,6 +253,7 @@ impl SpiBus for MockBus {
             }
             s.fault = Some(k - 1);
         }
+        s.drain();
         s.event("L");
         Ok(())
     }
